@@ -122,6 +122,10 @@ theorem C09_translator_emitted_classified :
 theorem C09_translator_modelled_registered :
     ∀ c ∈ modelledCombinators, c ∈ Gen.registeredCombinators := by decide
 
+/-- the literal of a code value is printed with `f64::to_string` (exact round trip through the text), and `lift_f` is
+that same function — the source-level facts `C09_lift_exact` rests on -/
+theorem C09_translator_literal_printing : Gen.litPrintedWithToString = true ∧ Gen.liftIsLit = true := by decide
+
 /-- every emitted combinator except `code_match` has a decoder … -/
 theorem C09_translator_emitted_registered_partial :
     ∀ c ∈ Gen.emittedCombinators, c ≠ "code_match" → c ∈ Gen.registeredCombinators := by decide
